@@ -640,6 +640,12 @@ func init() {
 			m.sideStr[c] = m.strConcat(m.sideStr[c], a[1].(Str))
 			return Tuple{m.strLen(a[1].(Str)), nilErr()}
 		},
+		"(*strings.Builder).Write": func(m *Machine, a []Val) Val {
+			c := a[0].(Ptr).C
+			sl := a[1].(Slice)
+			m.sideStr[c] = m.strConcat(m.sideStr[c], m.bytesToStr(sl))
+			return Tuple{sl.Len, nilErr()}
+		},
 		"(*strings.Builder).WriteByte": func(m *Machine, a []Val) Val {
 			c := a[0].(Ptr).C
 			b := a[1].(Int)
@@ -712,6 +718,18 @@ func init() {
 				return CI(64, 1)
 			}
 			return Int{W: 64, S: "(ite " + eq.S + " (_ bv0 64) (_ bv1 64))"}
+		},
+		"bytes.IndexByte": func(m *Machine, a []Val) Val {
+			// first index i with b[i] == c, or -1 (forks over the position)
+			sl, c := a[0].(Slice), a[1].(Int)
+			ln := m.concretize(sl.Len, "bytes.IndexByte length")
+			for i := uint64(0); i < ln.C; i++ {
+				b := m.baSel(sl.B, m.add(sl.Off, CI(64, i)))
+				if m.ex.Branch(m.intBin(token.EQL, b, c, false).(Bool)) {
+					return CI(64, i)
+				}
+			}
+			return CI(64, ^uint64(0))
 		},
 		"bytes.Equal": func(m *Machine, a []Val) Val { return m.bytesEqual(a[0].(Slice), a[1].(Slice)) },
 
